@@ -220,7 +220,7 @@ def parse_logic(name, T, first, tok, bc, props, lowerT=None):
         after={'let label = self.new_label();': f'let ghost first0 = sp_{lower}(old(self).tokenizer.toks(), old(self).tokenizer.pos(), old(self).next_label)->Some_0;',
                ('stmt', 'let (rhs_node, rhs_ast) =', 0): 'proof { rhs0 = P { ast: rhs_ast, end: self.tokenizer.pos(), lbl: self.next_label, details: rhs_node.details@, node: node_view(rhs_node.inner) }; }'},
         loops={0: dict(invariant=[
-            ('token_stream_untouched', 'self.tokenizer.toks() == old(self).tokenizer.toks() && self.tokenizer.pos() <= self.tokenizer.toks().len()'),
+            ('token_stream_untouched', 'self.tokenizer.toks() == old(self).tokenizer.toks() && self.tokenizer.pos() <= self.tokenizer.toks().len() && self.bindings == old(self).bindings'),
             ('progress', 'self.tokenizer.pos() > old(self).tokenizer.pos()'),
             ('one_label_per_level', f'label == first0.lbl && sp_{lower}(old(self).tokenizer.toks(), old(self).tokenizer.pos(), old(self).next_label) == Some(first0) && first0.end <= self.tokenizer.toks().len() && first0.lbl < u32::MAX'),
             ('prefix_parsed_left_grouped', f'''sp_{name}_loop(self.tokenizer.toks(), P {{ ast: mk_ast({T}::Unary(first0.ast), a_loc(first0.ast)), end: first0.end, lbl: (first0.lbl + 1) as u32, details: first0.details, node: first0.node }}, label)
@@ -248,7 +248,7 @@ def parse_level(name, T, first, props, arms=(), rlimit=None):
         ret='r', attrs=['#[verifier::exec_allows_no_decreases_clause]'] + ([f'#[verifier::rlimit({rlimit})]'] if rlimit else []),
         requires=[('cursor_in_range', 'old(self).tokenizer.pos() <= old(self).tokenizer.toks().len()')],
         ensures=[
-            ('token_stream_untouched', 'final(self).tokenizer.toks() == old(self).tokenizer.toks() && final(self).tokenizer.pos() <= final(self).tokenizer.toks().len()'),
+            ('token_stream_untouched', 'final(self).tokenizer.toks() == old(self).tokenizer.toks() && final(self).tokenizer.pos() <= final(self).tokenizer.toks().len() && final(self).bindings == old(self).bindings'),
             ('grammar_shape_spans_identifiers_and_code', f'''r is Ok ==> ({{
                 let p = sp_{name}(old(self).tokenizer.toks(), old(self).tokenizer.pos(), old(self).next_label);
                 &&& p is Some
@@ -261,7 +261,7 @@ def parse_level(name, T, first, props, arms=(), rlimit=None):
             }})''', props),
         ],
         loops={0: dict(invariant=[
-            ('token_stream_untouched', 'self.tokenizer.toks() == old(self).tokenizer.toks() && self.tokenizer.pos() <= self.tokenizer.toks().len()'),
+            ('token_stream_untouched', 'self.tokenizer.toks() == old(self).tokenizer.toks() && self.tokenizer.pos() <= self.tokenizer.toks().len() && self.bindings == old(self).bindings'),
             ('progress', 'self.tokenizer.pos() > old(self).tokenizer.pos()'),
             ('prefix_parsed_left_grouped', f'''sp_{name}(old(self).tokenizer.toks(), old(self).tokenizer.pos(), old(self).next_label)
                 == sp_{name}_loop(self.tokenizer.toks(), P {{ ast: current_ast, end: self.tokenizer.pos(), lbl: self.next_label, details: current_node.details@, node: node_view(current_node.inner) }})''', props),
@@ -365,7 +365,7 @@ def build():
         'parse_unary': A(stub=True, ret='r',
                          requires=[('cursor_in_range', 'old(self).tokenizer.pos() <= old(self).tokenizer.toks().len()')],
                          ensures=parse_level('unary', 'Unary', None, ('C02',)).ensures),
-        'new_label': A(stub=True, ret='r', ensures=[('fresh_label', 'r == old(self).next_label && final(self).next_label == old(self).next_label + 1 && final(self).tokenizer == old(self).tokenizer'),
+        'new_label': A(stub=True, ret='r', ensures=[('fresh_label', 'r == old(self).next_label && final(self).next_label == old(self).next_label + 1 && final(self).tokenizer == old(self).tokenizer && final(self).bindings == old(self).bindings'),
                                                   ('ASSUMED_no_overflow_of_the_label_counter', 'old(self).next_label < u32::MAX')]),
         'parse_relation': parse_level('rel', 'Relation', 'parse_addition', ('C02', 'C18', 'C17', 'C09', 'C10'),
                                       [('LessThan', 'Lt'), ('LessEqual', 'Le'), ('EqualEqual', 'Eq'), ('NotEqual', 'Ne'), ('GreaterEqual', 'Ge'), ('GreaterThan', 'Gt'), ('In', 'In')], rlimit=200),
